@@ -68,6 +68,11 @@ CHECKS = {
          "3096 helper signatures (fixed parameters, optional trailing map / helper context by struct or interface type, variadic tails, 6 result shapes) are crossed with all calls of 0-3 arguments over 8 argument kinds, with and without a block. For each call the recording body reports what it received; this must equal the binder's prediction (positional, unchanged values, nil -> zero value, automatic map/context carrying the block, variadic tail), rejected calls must not invoke the helper and must name it in the error, the first result is the value, a non-nil error result fails the render with errors.Is.",
          "Trusted: the reference binder; Go's reflect.AssignableTo as the meaning of 'assignable'.",
          "DESIGN.md §5 C12"),
+ "C15": ("exploration",
+         "runtime monitor: generator-counted line oracle plus a metamorphic shift relation on the real engine's error text",
+         "Each of 27 fault kinds is placed as a single-line tag in 13 containers after prefixes built from 20 kinds of multi-line constructs; the error must start with 'line N:' for the N the generator counted, and for k in {1,2,7,100} the same template preceded by k lines (empty or text) must give the same error with every line-start 'line M:' increased by exactly k.",
+         "Trusted: the generator's newline count; the regular expression that locates line prefixes.",
+         "DESIGN.md §5 C15"),
 }
 NOT_YET = "check not built yet in this round (see DESIGN.md §5 for the planned monitor)"
 
